@@ -25,6 +25,17 @@ def main():
     res = {"change": seed}
     try:
         rc, out = sh(f"git apply {seed}/patch.diff", cwd=wt)
+        if rc != 0:
+            # the tree has moved on since the patch was written (fix commits): try a three-way merge
+            rc, out = sh(f"git apply -3 {seed}/patch.diff", cwd=wt)
+            res["patch_applied_three_way"] = rc == 0
+            if rc != 0:
+                # stale: written against a tree that fix commits have changed since
+                res["patch_applies"] = False
+                res["stale"] = True
+                res["checks"] = {}
+                print(json.dumps(res, indent=1))
+                return
         res["patch_applies"] = rc == 0
         rc, out = sh("go build ./...", cwd=wt, env=env)
         res["builds"] = rc == 0
